@@ -14,15 +14,58 @@ ANNS = ["int", "str", "float", "bytes", "list[int]", "dict[str, int]", "int | No
 
 
 def render_params(params):
-    out = []
-    for name, ann, has_default in params:
-        s = name
+    """params: [name, annotation, has_default, kind?] with kind in {None, "po", "kw", "var", "varkw"} (positional-only,
+    keyword-only, *name, **name); grouped in the order Python demands, `/` and `*` inserted as needed."""
+
+    def one(p, prefix="", default_ok=True, force_default=False):
+        name, ann, has_default = p[0], p[1], p[2]
+        s = prefix + name
         if ann is not None:
             s += f": {ann}"
-        if has_default:
+        if default_ok and (has_default or force_default):
             s += " = 0" if ann is not None else "=0"
-        out.append(s)
+        return s
+
+    kind = lambda p: p[3] if len(p) > 3 else None  # noqa: E731
+    po = [p for p in params if kind(p) == "po"]
+    normal = [p for p in params if kind(p) is None]
+    var = [p for p in params if kind(p) == "var"][:1]
+    kw = [p for p in params if kind(p) == "kw"]
+    varkw = [p for p in params if kind(p) == "varkw"][:1]
+    if not po and not var and not kw and not varkw:
+        return ", ".join(one(p) for p in params)
+    # `self` stays first
+    if normal and normal[0][0] == "self":
+        po = [normal[0]] + po if po else po
+        if po and po[0][0] == "self":
+            normal = normal[1:]
+    out = []
+    seen_default = False
+    for p in po + normal:
+        seen_default = seen_default or p[2]
+        out.append(one(p, force_default=seen_default))
+        if po and p is po[-1]:
+            out.append("/")
+    if var:
+        out.append(one(var[0], prefix="*", default_ok=False))
+    elif kw:
+        out.append("*")
+    out += [one(p) for p in kw]
+    if varkw:
+        out.append(one(varkw[0], prefix="**", default_ok=False))
     return ", ".join(out)
+
+
+def param_order(params):
+    """The order in which render_params writes the parameters (groups by kind)."""
+    kind = lambda p: p[3] if len(p) > 3 else None  # noqa: E731
+    if all(kind(p) is None for p in params):
+        return list(params)
+    po = [p for p in params if kind(p) == "po"]
+    normal = [p for p in params if kind(p) is None]
+    if normal and normal[0][0] == "self" and po:
+        po, normal = [normal[0]] + po, normal[1:]
+    return po + normal + [p for p in params if kind(p) == "var"][:1] + [p for p in params if kind(p) == "kw"] + [p for p in params if kind(p) == "varkw"][:1]
 
 
 def _doc_lines(doc, ind):
